@@ -868,38 +868,35 @@ class PteraTransformer(NodeTransformer):
 
         def _unpack(target):
             # Unpack into temporary variables with a real unpacking
-            # assignment (so that any iterable, starred and nested targets
-            # work as usual), then set each variable from its temporary.
+            # assignment (so that any iterable and starred targets work as
+            # usual), then set each target from its temporary, in order.
+            # Nested targets are unpacked when their turn comes, as Python
+            # does.
+            temps = []
             stmts = []
-
-            def _rename(tgt):
-                if isinstance(tgt, (ast.Tuple, ast.List)):
-                    return type(tgt)(
-                        elts=[_rename(elt) for elt in tgt.elts],
-                        ctx=ast.Store(),
-                    )
-                elif isinstance(tgt, ast.Starred):
-                    return ast.Starred(
-                        value=_rename(tgt.value), ctx=ast.Store()
-                    )
+            for tgt in target.elts:
+                tmp = _gensym()
+                tmp_store = ast.Name(id=tmp, ctx=ast.Store())
+                if isinstance(tgt, ast.Starred):
+                    temps.append(ast.Starred(value=tmp_store, ctx=ast.Store()))
+                    tgt = tgt.value
                 else:
-                    tmp = _gensym()
-                    stmts.extend(
-                        self.visit_Assign(
-                            ast.copy_location(
-                                ast.Assign(
-                                    targets=[tgt],
-                                    value=ast.Name(id=tmp, ctx=ast.Load()),
-                                ),
-                                node,
-                            )
+                    temps.append(tmp_store)
+                stmts.extend(
+                    self.visit_Assign(
+                        ast.copy_location(
+                            ast.Assign(
+                                targets=[tgt],
+                                value=ast.Name(id=tmp, ctx=ast.Load()),
+                            ),
+                            node,
                         )
                     )
-                    return ast.Name(id=tmp, ctx=ast.Store())
+                )
 
             unpack = ast.copy_location(
                 ast.Assign(
-                    targets=[_rename(target)],
+                    targets=[type(target)(elts=temps, ctx=ast.Store())],
                     value=self.visit(node.value),
                 ),
                 node,
